@@ -22,7 +22,8 @@ LinkToks(links, nextOpd) ==
   IF links = <<>> THEN <<>>
   ELSE IF Head(links) <= 25 THEN <<[t |-> "op", op |-> BinList[Head(links)]], Atom(Operand(nextOpd))>> \o LinkToks(Tail(links), nextOpd + 1)
   ELSE <<[t |-> "test", neg |-> (Head(links) = 27), name |-> IF Head(links) = 26 THEN "odd" ELSE "even"]>> \o LinkToks(Tail(links), nextOpd)
-(* unary variants: 0 none, 1 "-" on the first operand, 2 "not" on the first, 3 "not" on the second operand, 4 "-" on the last operand *)
+(* unary variants: 0 none, 1 "-" on the first operand, 2 "not" on the first, 3 "not" on the second operand, 4 "-" on the last operand,
+   5 "not (a)" and 6 "-(a)" on the first operand *)
 RECURSIVE NthAtom(_, _, _)
 NthAtom(toks, n, q) == IF q > Len(toks) THEN 0
                        ELSE IF toks[q].t = "atom" THEN (IF n = 1 THEN q ELSE NthAtom(toks, n - 1, q + 1)) ELSE NthAtom(toks, n, q + 1)
@@ -33,18 +34,23 @@ WithUnary(toks, u) ==
     [] u = 1 -> InsertTok(toks, 1, [t |-> "un", op |-> "-"])
     [] u = 2 -> InsertTok(toks, 1, [t |-> "un", op |-> "not"])
     [] u = 3 -> IF NumAtoms(toks) >= 2 THEN InsertTok(toks, NthAtom(toks, 2, 1), [t |-> "un", op |-> "not"]) ELSE toks
-    [] OTHER -> IF NumAtoms(toks) >= 2 THEN InsertTok(toks, NthAtom(toks, NumAtoms(toks), 1), [t |-> "un", op |-> "-"]) ELSE toks
+    [] u = 4 -> IF NumAtoms(toks) >= 2 THEN InsertTok(toks, NthAtom(toks, NumAtoms(toks), 1), [t |-> "un", op |-> "-"]) ELSE toks
+    (* 5, 6: the first operand is written in parentheses after "not" / "-" (partial parenthesisation) *)
+    [] OTHER -> <<[t |-> "un", op |-> (IF u = 5 THEN "not" ELSE "-")], [t |-> "lp"], toks[1], [t |-> "rp"]>> \o Tail(toks)
 ChainToks(links, u) == WithUnary(<<Atom(Operand(1))>> \o LinkToks(links, 2), u)
-(* conditional variants: 0 none, 1 trailing (chain ? 8 : 9), 2 inner (1 ? chain : 9) *)
+(* conditional variants: 0 none, 1 trailing (chain ? 8 : 9), 2 inner (1 ? chain : 9), 3/4 chained in the else position *)
 WithTern(tree, tv) ==
   CASE tv = 0 -> tree
     [] tv = 1 -> [k |-> "tern", c |-> tree, t |-> IntE(8), f |-> IntE(9)]
-    [] OTHER -> [k |-> "tern", c |-> IntE(1), t |-> tree, f |-> IntE(9)]
+    [] tv = 2 -> [k |-> "tern", c |-> IntE(1), t |-> tree, f |-> IntE(9)]
+    (* chained: a ? 8 : b ? 9 : 7 groups to the right; the first condition is truthy or falsy depending on the chain *)
+    [] tv = 3 -> [k |-> "tern", c |-> tree, t |-> IntE(8), f |-> [k |-> "tern", c |-> IntE(0), t |-> IntE(9), f |-> IntE(7)]]
+    [] OTHER -> [k |-> "tern", c |-> IntE(1), t |-> IntE(8), f |-> [k |-> "tern", c |-> tree, t |-> IntE(9), f |-> IntE(7)]]
 
 (* index -> configuration *)
 RECURSIVE PowN(_, _)
 PowN(b, n) == IF n = 0 THEN 1 ELSE b * PowN(b, n - 1)
-Variants == 15
+Variants == 35
 CountLen(n) == PowN(NLink, n) * Variants
 RECURSIVE BaseLen(_)
 BaseLen(n) == IF n = 1 THEN 0 ELSE BaseLen(n - 1) + CountLen(n - 1)
@@ -54,7 +60,7 @@ Cfg(j) == LET n == LenOf(j)
               r == j - BaseLen(n)
               vr == r % Variants
               code == r \div Variants
-          IN [links |-> [q \in 1..n |-> ((code \div PowN(NLink, q - 1)) % NLink) + 1], u |-> vr % 5, tv |-> vr \div 5]
+          IN [links |-> [q \in 1..n |-> ((code \div PowN(NLink, q - 1)) % NLink) + 1], u |-> vr % 7, tv |-> vr \div 7]
 
 Small == IF MaxLen >= 3 THEN BaseLen(3) ELSE Total
 End3 == IF MaxLen >= 4 THEN BaseLen(4) ELSE Total
@@ -74,12 +80,13 @@ Vecc ==
       outb == IF st = "ok" THEN CoerceBytes(ev[1]) ELSE <<>>
   IN [id |-> "C04-" \o ToString(v_idx), k |-> "c04", flat |-> tree, paren |-> AddGroups(tree), ctx |-> EmptyScope,
       x |-> [len |-> Len(c.links), u |-> c.u, tv |-> c.tv],
-      exp |-> [shape |-> tree, status |-> (IF st = "ok" /\ BytesOOM(outb) THEN "oom" ELSE st), out |-> (IF BytesOOM(outb) THEN <<>> ELSE outb)]]
+      exp |-> [shape |-> StripGroups(tree), status |-> (IF st = "ok" /\ BytesOOM(outb) THEN "oom" ELSE st), out |-> (IF BytesOOM(outb) THEN <<>> ELSE outb)]]
 Out == v_lvl < 2 \/ Emit(Vecc)
 
 --------------------------------------------------------------------------
-ParseIsValidTree == v_lvl = 2 => (Valid(RefTree) /\ Frontier(RefTree) = Toks)
+NoParens == \A q \in 1..Len(Toks) : Toks[q].t \notin {"lp", "rp"}
+ParseIsValidTree == v_lvl = 2 => (Valid(RefTree) /\ (NoParens => Frontier(RefTree) = Toks))
 (* uniqueness is checked by enumerating every bracketing of chains with up to 3 links *)
-ValidTreeUnique == (v_lvl = 2 /\ Len(Cfg(v_idx).links) <= 3) => {t \in TreesOf(Toks) : Valid(t)} = {RefTree}
-ParenRoundTrip == v_lvl = 2 => StripGroups(ParseTokens(ParenTokens(RefTree))) = RefTree
+ValidTreeUnique == (v_lvl = 2 /\ Len(Cfg(v_idx).links) <= 3 /\ NoParens) => {t \in TreesOf(Toks) : Valid(t)} = {RefTree}
+ParenRoundTrip == v_lvl = 2 => StripGroups(ParseTokens(ParenTokens(RefTree))) = StripGroups(RefTree)
 =============================================================================
